@@ -426,30 +426,40 @@ def rule_d(rep, cx):
     lcall = cx.load_calls[0]
     recv = _follow(rq, lcall.func.value)
     ok = norm(argn(lcall, 'secret_key', 2)) == 'self.secret_key' and norm(argn(lcall, 'key', 1)) == 'self.cookie_name' and \
-        norm(argn(lcall, 'request', 0)) == 'request' and norm(recv) in ('self._cookie_type', 'JSONCookie')
+        norm(argn(lcall, 'request', 0)) == 'request' and norm(recv) in ('self._cookie_type', 'type(self)._cookie_type', 'self.__class__._cookie_type', 'JSONCookie')
     rep.check('R16.d', fkey(rq, 'load_cookie args'), ok, 'load_cookie(request, key=self.cookie_name, secret_key=self.secret_key)' if ok else
               'load_cookie is not given the middleware\'s own key/name: %s' % short(lcall), ck, lcall)
     ct = ck.cls('SignedCookieMiddleware').class_attrs.get('_cookie_type')
     rep.check('R16.d', '%s::SignedCookieMiddleware._cookie_type' % COOKIE, norm(ct) == 'JSONCookie', '_cookie_type is JSONCookie' if norm(ct) == 'JSONCookie' else
               '_cookie_type is %s' % norm(ct), ck)
     init = ck.func('SignedCookieMiddleware.__init__')
+    mw = ck.cls('SignedCookieMiddleware')
     sk = [s for s in stmts_of(init.node) if isinstance(s, ast.Assign) and any(norm(t) == 'self.secret_key' for t in s.targets)]
-    atoms = set()
+    atoms = []
     for s in sk:
-        atoms |= _atoms(init, s.value, set())
-    ok = bool(sk) and atoms == {'param:secret_key', 'call:self._get_random'}
+        atoms += _atoms(init, s.value, set())
+    # every value self.secret_key may get is the constructor argument or a fresh random key (a direct os.urandom call or
+    # a no-argument method of the class that returns one)
+    sources = [(x, _random_calls(mw, x)) for k, x in atoms if k == 'call']
+    ok = bool(sk) and ('param', 'secret_key') in atoms and bool(sources) and all(r for _, r in sources) and \
+        all(k == 'call' or (k, x) == ('param', 'secret_key') for k, x in atoms)
     rep.check('R16.d', fkey(init, 'self.secret_key'), ok, 'secret key is the constructor argument, else random' if ok else
               'self.secret_key is not "secret_key or self._get_random()": %s' % (short(sk[0].value) if sk else 'missing'), ck, init.node)
-    gr = ck.func('SignedCookieMiddleware._get_random')
-    rv = returns_of(gr)
-    rcall = _follow(gr, rv[0].value) if len(rv) == 1 and rv[0].value is not None else None
-    nbytes = cx.fold(rcall.args[0]) if isinstance(rcall, ast.Call) and len(rcall.args) == 1 and not rcall.keywords else None
-    ok = isinstance(rcall, ast.Call) and norm(rcall.func) in ('os.urandom', 'secrets.token_bytes') and \
-        isinstance(nbytes, int) and not isinstance(nbytes, bool) and nbytes >= 16
-    rep.check('R16.d', fkey(gr), ok, 'random key is >= 16 bytes of os.urandom' if ok else 'random key is not os.urandom(>=16)', ck, gr.node)
+    rcalls = []
+    for _, r in sources:
+        rcalls += [x for x in (r or []) if not any(x[1] is y[1] for y in rcalls)]
+    if not rcalls and '_get_random' in mw.methods:
+        rcalls = _random_calls(mw, ast.Call(func=ast.Attribute(value=ast.Name(id='self', ctx=ast.Load()), attr='_get_random', ctx=ast.Load()),
+                                            args=[], keywords=[])) or [(mw.methods['_get_random'], None)]
+    for gr, rcall in rcalls:
+        nbytes = cx.fold(rcall.args[0]) if rcall is not None and len(rcall.args) == 1 and not rcall.keywords else None
+        ok = isinstance(nbytes, int) and not isinstance(nbytes, bool) and nbytes >= 16
+        rep.check('R16.d', fkey(gr) if gr is not init else fkey(init, 'random key'), ok,
+                  'random key is >= 16 bytes of os.urandom' if ok else 'random key is not os.urandom(>=16)', ck, rcall or gr.node)
+    if not rcalls:
+        rep.fail('R16.d', fkey(init, 'random key'), 'no os.urandom source for the default secret key', ck, init.node)
     pv = [s for s in stmts_of(init.node) if isinstance(s, ast.Assign) and any(norm(t) == 'self.provides' for t in s.targets)]
-    ok = len(pv) == 1 and norm(_follow(init, pv[0].value)) in ('(arg_name,)', '(self.arg_name,)', '[arg_name]', '[self.arg_name]') \
-        and not assigned_value(init.node, 'arg_name')
+    ok = len(pv) == 1 and _only_arg_name(init, _follow(init, pv[0].value)) and not assigned_value(init.node, 'arg_name')
     rep.check('R16.d', fkey(init, 'self.provides'), ok, 'provides is exactly (arg_name,)' if ok else 'provides is not (arg_name,)', ck, init.node)
     lst = stmt_of(ck, lcall)
     cvar = lst.targets[0].id if isinstance(lst, ast.Assign) and lst.value is lcall and len(lst.targets) == 1 \
@@ -489,32 +499,56 @@ def rule_d(rep, cx):
 
 def _atoms(fi, e, seen):
     """The values an expression may evaluate to, as far as ``or`` / conditional expressions / locals go:
-    'param:<name>', 'call:<callee>' or 'expr:<text>'."""
+    [('param', name) | ('call', call node) | ('expr', text)]."""
     if isinstance(e, ast.BoolOp) and isinstance(e.op, ast.Or):
-        out = set()
+        out = []
         for v in e.values:
-            out |= _atoms(fi, v, seen)
+            out += _atoms(fi, v, seen)
         return out
     if isinstance(e, ast.IfExp):
-        return _atoms(fi, e.body, seen) | _atoms(fi, e.orelse, seen)
+        return _atoms(fi, e.body, seen) + _atoms(fi, e.orelse, seen)
     if isinstance(e, ast.Name):
         if e.id in seen:
-            return set()
-        out = set()
+            return []
+        out = []
         if e.id in fi.params():
-            out.add('param:%s' % e.id)
+            out.append(('param', e.id))
         defs = assigned_value(fi.node, e.id)
         if not defs and not out:
-            return {'expr:%s' % e.id}
+            return [('expr', e.id)]
         for st, v, idx in defs:
             if idx is not None or not isinstance(st, (ast.Assign, ast.AnnAssign)):
-                out.add('expr:%s' % short(st, 40))
+                out.append(('expr', short(st, 40)))
             else:
-                out |= _atoms(fi, v, seen | {e.id})
+                out += _atoms(fi, v, seen | {e.id})
         return out
-    if isinstance(e, ast.Call) and not e.args and not e.keywords:
-        return {'call:%s' % norm(e.func)}
-    return {'expr:%s' % norm(e)}
+    if isinstance(e, ast.Call):
+        return [('call', e)]
+    return [('expr', norm(e))]
+
+
+RANDOM_BYTES = ('os.urandom', 'secrets.token_bytes')
+
+
+def _random_calls(ci, call):
+    """[(function it is written in, the os.urandom(..) call)] a call stands for: the call itself, or -- for a
+    no-argument ``self.m()`` -- the value every return of method ``m`` gives.  None: not a random-bytes source."""
+    if norm(call.func) in RANDOM_BYTES:
+        return [(ci.methods['__init__'], call)]
+    f = call.func
+    if isinstance(f, ast.Attribute) and norm(f.value) == 'self' and f.attr in ci.methods and not call.args and not call.keywords:
+        m = ci.methods[f.attr]
+        rv = [_follow(m, r.value) if r.value is not None else None for r in returns_of(m)]
+        if rv and all(isinstance(v, ast.Call) and norm(v.func) in RANDOM_BYTES for v in rv):
+            return [(m, v) for v in rv]
+    return None
+
+
+def _only_arg_name(fi, e):
+    """``(arg_name,)`` / ``[arg_name]`` / ``tuple([arg_name])`` -- the one provided name is the arg_name argument."""
+    if isinstance(e, ast.Call) and isinstance(e.func, ast.Name) and e.func.id in ('tuple', 'list') and len(e.args) == 1 and not e.keywords:
+        e = _follow(fi, e.args[0])
+    return isinstance(e, (ast.Tuple, ast.List)) and len(e.elts) == 1 and norm(e.elts[0]) in ('arg_name', 'self.arg_name')
 
 
 def _saved_under(cx, fi, call):
